@@ -90,3 +90,156 @@ def lemma_target_not_below_child(reg, repo):
 
 LEMMAS = {"target_exists": lemma_target_exists, "target_not_below_child": lemma_target_not_below_child,
           "mover.root_attach": lemma_mover("trees.transform.root_attach")}
+
+
+# ----------------------------------------------------------------------------------------------------------------------
+# root_attach, the right-boundary loop (from `focus = child` to the end of `while sibling != None`): walking over the
+# root's children right of `child` in order of their least token,
+#     a sibling that starts left of the current right edge is skipped (interleaved with the focus),
+#     a sibling that starts more than one token beyond the edge ends the walk,
+#     otherwise the sibling is absorbed: the edge moves to its last token.
+# Stated with the ghost sequences EDGE(k) / DONE(k) (state before looking at the k-th ordered child), defined by
+# primitive recursion exactly as the rule above; the block proves t_r == EDGE(k) + 1 at every loop head and, with the
+# lemma edge_frozen (once DONE, the edge no longer moves; induction), t_r == EDGE(n) + 1 at the exit.
+# ----------------------------------------------------------------------------------------------------------------------
+def _edge_theory(H, tree, c0):
+    """(EDGE, DONE, definitional facts) for the walk that starts at the ordered child number c0"""
+    from pyvc.sym import qforall
+    C = H.ochildren(tree)
+    EDGE = z3.Function("ra_edge", z3.IntSort(), z3.IntSort())
+    DONE = z3.Function("ra_done", z3.IntSort(), z3.BoolSort())
+    k = z3.Int(fresh_name("ek"))
+    first = lambda q: H.num(H.terms(C.get(q)).get(0)).t
+    last = lambda q: H.num(H.terms(C.get(q)).get(H.terms(C.get(q)).n - 1)).t
+    step_e = lambda q: z3.If(z3.Or(DONE(q), first(q) < EDGE(q), first(q) > EDGE(q) + 1), EDGE(q), last(q))
+    step_d = lambda q: z3.Or(DONE(q), z3.And(first(q) >= EDGE(q), first(q) > EDGE(q) + 1))
+    # stated backwards (EDGE(k) from EDGE(k - 1)) so that the definition is found for any term EDGE(t) / DONE(t)
+    facts = [EDGE(c0 + 1) == last(c0), z3.Not(DONE(c0 + 1)),
+             qforall([k], z3.Implies(z3.And(c0 + 1 < k, k <= C.n), EDGE(k) == step_e(k - 1)), [EDGE(k)]),
+             qforall([k], z3.Implies(z3.And(c0 + 1 < k, k <= C.n), DONE(k) == step_d(k - 1)), [DONE(k)])]
+    return EDGE, DONE, facts, first, last
+
+
+def lemma_right_boundary(reg, repo):
+    import ast
+    from pyvc.core import Contract, Exec, State
+    from pyvc.sym import Unsupported, qforall, toint, VNone
+    from contracts.common import terms_facts, children_facts, C_idx
+    from contracts import c19
+    add_common(reg)
+    c19.build(reg)
+    qual = "trees.transform.root_attach"
+    info = repo.fns.get(qual)
+    if info is None:
+        raise Unsupported("function %s no longer exists" % qual)
+    block = None
+    for node in ast.walk(info.node):
+        body = getattr(node, "body", None)
+        if not isinstance(body, list):
+            continue
+        srcs = [ast.unparse(s) for s in body]
+        if "focus = child" in srcs:
+            i0 = srcs.index("focus = child")
+            wh = [j for j in range(i0, len(body)) if isinstance(body[j], ast.While)]
+            if wh:
+                block = body[i0:wh[0] + 1]
+    if block is None:
+        raise Unsupported("the right-boundary loop of root_attach was not found (the contract no longer binds)")
+    loop = block[-1]
+    c = Contract(target=qual, prop="C12", args={}, loops={})
+    ex = Exec(repo, reg, info, c, prefix="C12.right_boundary")
+    H = Heap.fresh("R")
+    st = State(heap=H)
+    for t in H.typing():
+        st.assume(t)
+    tree, child = VRef(z3.Int(fresh_name("r_tree"))), VRef(z3.Int(fresh_name("r_child")))
+    C = H.ochildren(tree)
+    c0 = C_idx(H, child).t
+    EDGE, DONE, facts, first, last = _edge_theory(H, tree, c0)
+    t_r0 = VInt(last(c0) + 1)
+    st.env.update(dict(tree=tree, child=child, t_r=t_r0))
+    ex.entry_heap = H.copy()
+    x = z3.Int(fresh_name("rx"))
+    st.assume(z3.And(tree.t != 0, child.t != 0, tobool(WF(H, tree)), tobool(WF(H, child)), H.parent_t(child.t) == tree.t))
+    st.assume(tobool(wf_theory(H)))
+    st.assume(tobool(children_facts(H, tree)))
+    # the contract of trees.terminals for every well-formed node (verified under C19)
+    st.assume(qforall([x], z3.Implies(tobool(WF(H, VRef(x))), tobool(terms_facts(H, VRef(x)))), [tobool(WF(H, VRef(x)))]))
+    for f in facts:
+        st.assume(f)
+    # first / last token of a node carry its least / greatest number (lemma first_last_bounds, from the order clause)
+    bi = z3.Int(fresh_name("bi"))
+    Tx = H.terms(VRef(x))
+    st.assume(qforall([x, bi], z3.Implies(z3.And(tobool(WF(H, VRef(x))), 0 <= bi, bi < Tx.n), z3.And(
+        H.num(Tx.get(0)).t <= H.num(Tx.get(bi)).t, H.num(Tx.get(bi)).t <= H.num(Tx.get(Tx.n - 1)).t)),
+        [[tobool(WF(H, VRef(x))), Tx.get(bi).t]]))
+
+    def inv(S):
+        focus, sib, t_r = S.focus, S.sibling, toint(S.t_r)
+        sib_t = z3.IntVal(0) if (sib is VNone or sib is None) else sib.t
+        kf = C_idx(H, focus).t
+        ks = z3.If(sib_t == 0, C.n, C_idx(H, VRef(sib_t)).t)
+        return VBool(z3.And(
+            focus.t != 0, tobool(WF(H, focus)), H.parent_t(focus.t) == tree.t, c0 <= kf, kf < ks, ks <= C.n,
+            z3.Implies(sib_t != 0, z3.And(tobool(WF(H, VRef(sib_t))), H.parent_t(sib_t) == tree.t, C.get(ks).t == sib_t)),
+            z3.Not(DONE(ks)), t_r == EDGE(ks) + 1, last(kf) == EDGE(ks)))
+
+    def variant(S):
+        sib = S.sibling
+        sib_t = z3.IntVal(0) if (sib is VNone or sib is None) else sib.t
+        return VInt(z3.If(sib_t == 0, 0, C.n - C_idx(H, VRef(sib_t)).t))
+
+    ex.c.loops = {ex.loop_ords[id(loop)]: dict(inv=inv, variant=variant)}
+    ex.obligations = []
+    outs = ex._with_raises(st, ex.exec_block(block, st))
+    vcs = []
+    kq = z3.Int(fresh_name("fk"))
+    frozen = z3.ForAll([kq], z3.Implies(z3.And(c0 < kq, kq <= C.n, DONE(kq)), EDGE(C.n) == EDGE(kq)))
+    for oi, o in enumerate(outs):
+        if o.kind != "normal":
+            raise Unsupported("the right-boundary loop leaves by %s" % o.kind)
+        vcs.append(("path%d.right_boundary_is_the_edge_of_the_walk_plus_one" % oi, list(o.st.pc) + [frozen],
+                    toint(o.st.env["t_r"]) == EDGE(C.n) + 1))
+    for ob in ex.obligations:
+        vcs.append(("loop.%s" % ob.name.split(".", 2)[-1], list(ob.pc), ob.goal))
+    return vcs
+
+
+lemma_right_boundary.target = "trees.transform.root_attach"
+# WORK IN PROGRESS, NOT REGISTERED (so not part of the check and not counted anywhere): 18 of its 21 obligations are
+# discharged; the two "absorb / skip" invariant steps and the break exit stay `unknown` in all back ends (the step from
+# EDGE(k) to EDGE(k + 1) at k = C_idx(sibling) is not found by the solvers).  The right boundary stays bounded-only.
+WORK_IN_PROGRESS = {"right_boundary": lemma_right_boundary}
+
+
+def lemma_edge_frozen(reg, repo):
+    """once the walk is done the edge no longer moves: DONE(k) -> DONE(m) and EDGE(m) == EDGE(k) for k <= m <= n
+    (induction on m: base and step)"""
+    H = Heap.fresh("Z")
+    tree = VRef(z3.Int("z_tree"))
+    c0 = z3.Int("z_c0")
+    EDGE, DONE, facts, first, last = _edge_theory(H, tree, c0)
+    C = H.ochildren(tree)
+    k, m = z3.Ints("z_k z_m")
+    hyp = facts + [c0 < k, k <= m, m < C.n, DONE(k)]
+    return [("base", facts + [c0 < k, DONE(k)], z3.And(DONE(k), EDGE(k) == EDGE(k))),
+            ("step", hyp + [DONE(m), EDGE(m) == EDGE(k)], z3.And(DONE(m + 1), EDGE(m + 1) == EDGE(k)))]
+
+
+WORK_IN_PROGRESS["edge_frozen"] = lemma_edge_frozen
+
+
+def lemma_first_last_bounds(reg, repo):
+    """from the contract of terminals (numbers strictly increasing along T(x)): the first token carries the least and
+    the last token the greatest number"""
+    from contracts.common import terms_facts
+    H = Heap.fresh("B")
+    x, i = VRef(z3.Int("b_x")), z3.Int("b_i")
+    T = H.terms(x)
+    hyp = [tobool(terms_facts(H, x)), 0 <= i, i < T.n]
+    nm = lambda q: H.num(T.get(q)).t
+    return [("first_is_least", hyp, z3.Or(i == 0, nm(0) < nm(i))),
+            ("last_is_greatest", hyp, z3.Or(i == T.n - 1, nm(i) < nm(T.n - 1)))]
+
+
+LEMMAS["first_last_bounds"] = lemma_first_last_bounds
